@@ -1,32 +1,20 @@
 use std::ops::Range;
 
-fn is_scheme_char(b: u8) -> bool {
-	// ALPHA *( ALPHA / DIGIT / "+" / "-" / "." )
-	b.is_ascii_alphanumeric() | matches!(b, b'+' | b'-' | b'.')
-}
-
-/// Checks if the input byte string looks like a scheme.
+/// Checks if the input byte string could be mistaken for a scheme followed
+/// by something else when it starts a relative reference.
 ///
-/// Returns `true` if it is of the form `prefix:suffix` where `prefix` is a
-/// valid scheme, of `false` otherwise.
+/// Returns `true` if its first path segment contains a `:`. A relative
+/// reference cannot start with such a segment (`path-noscheme`), whether or
+/// not what precedes the `:` is a valid scheme: `1a:b` is not a valid
+/// relative reference, just as `a:b` is not.
 #[inline]
 pub fn looks_like_scheme(bytes: &[u8]) -> bool {
-	let mut i = 0;
-	while i < bytes.len() {
-		if i == 0 {
-			if !bytes[i].is_ascii_alphabetic() {
-				break;
-			}
-		} else {
-			let b = bytes[i];
-			if b == b':' {
-				return true;
-			} else if !is_scheme_char(b) {
-				break;
-			}
+	for &b in bytes {
+		match b {
+			b':' => return true,
+			b'/' | b'?' | b'#' => return false,
+			_ => (),
 		}
-
-		i += 1
 	}
 
 	false
